@@ -76,7 +76,7 @@ def _body(draw, depth: int, n_max: int, st_base: list, in_block: bool, opts: dic
     if depth > 0:
         kinds += ["block"] * 4
     if opts.get("watch"):
-        kinds += ["watch"] * 2
+        kinds += ["watch"] * 3
     for _ in range(n):
         k = draw(st.sampled_from(kinds))
         nd: dict = {"k": k, "t": None}
@@ -91,7 +91,7 @@ def _body(draw, depth: int, n_max: int, st_base: list, in_block: bool, opts: dic
             nd["w"] = draw(st.sampled_from(WAITS))
             nd["d"] = 0.0
         elif k == "base":
-            nd["u"] = draw(st.sampled_from(["s", "s", "s", "min", "h", "L", "L", "mL"]))
+            nd["u"] = draw(st.sampled_from(["s", "s", "s", "min", "h", "L", "L", "mL", "mL"]))
             st_base[0] = nd["u"]
         elif k == "block":
             nd["c"] = draw(_body(depth - 1, opts["children"], st_base, True, opts))
@@ -113,7 +113,7 @@ def _body(draw, depth: int, n_max: int, st_base: list, in_block: bool, opts: dic
 
 @st.composite
 def cases(draw, opts: dict):
-    base = draw(st.sampled_from(["s", "s", "s", "s", "min", "h", "L", None]))
+    base = draw(st.sampled_from(["s", "s", "s", "s", "min", "h", "L", "mL", None]))
     st_base = [base or DEFAULT_BASE]
     body = draw(_body(opts["depth"], opts["top"], st_base, False, opts))
     tree = {"base": base, "body": body}
@@ -255,6 +255,10 @@ def valid_tree(tree) -> bool:
 
 def valid_case(case) -> bool:
     if not isinstance(case, dict) or not valid_tree(case.get("tree")):
+        return False
+    try:
+        render(case["tree"])        # domain guard only: the shrinker proposes arbitrary sub-structures (missing keys ...)
+    except (KeyError, TypeError, ValueError, AttributeError, IndexError):
         return False
     mt = case.get("max_ticks")
     if not (isinstance(mt, int) and 1 <= mt <= 3000) or case.get("t0") not in ("epoch", "zero"):
